@@ -348,5 +348,10 @@ Proof.
 Qed.
 
 
+(* the public method SuccessionDiagram.expand_to_target as generated from the source *)
+Theorem py_api_expand_to_target_spec : forall fuel N cfg d target size_limit,
+  py_api_expand_to_target fuel N cfg d target size_limit = expand_to_target fuel N cfg d target size_limit.
+Proof. intros. unfold py_api_expand_to_target. apply py_expand_to_target_spec_all. Qed.
+
 Print Assumptions py_expand_to_target_spec.
 Print Assumptions py_expand_to_target_spec_all.
